@@ -744,7 +744,8 @@ func (c *specCtx) indexVal(v Val, t types.Type, iv Val) (Val, types.Type) {
 					return c.e.freshVal(c.st, u.Elem(), "spec_oob"), u.Elem()
 				}
 			}
-			c.fail("symbolic index into local array slice in spec")
+			// symbolic index: move the local array to the heap and read it there
+			v = c.e.materialise(c.st, v, t)
 		}
 		px := &PtrX{Kind: PElem, Ref: v.slArr(), Idx: tb.Idx(v.slOff(), iv.T[0]), Root: u.Elem(), Elem: -1}
 		return c.loadPx(px, u.Elem()), u.Elem()
@@ -930,6 +931,17 @@ func (c *specCtx) call(n *SCall) (Val, types.Type) {
 		}
 		kk := c.e.mapKey(c.st, it.KeyT, k)
 		return scalar(tb.Select(it.Dom, kk)), boolType
+	case "isbatch":
+		// isbatch(w): the store writer w was created by NewBatch (its writes take effect together, at Apply)
+		v, _ := arg(0)
+		return scalar(tb.Select(c.ghostArr("kvbatch", SArrB), tb.App("kvkey", SInt, v.ifTag(), v.ifVal()))), boolType
+	case "kvapplied":
+		v, _ := arg(0)
+		return scalar(tb.Select(c.ghostArr("kvapplied", SArrI), tb.App("kvkey", SInt, v.ifTag(), v.ifVal()))), untypedInt
+	case "kvput", "kvdel":
+		// kvput(key) / kvdel(key): a Put / Delete with this key string was issued on a store writer (ghost set)
+		v, _ := arg(0)
+		return scalar(tb.Select(c.ghostArr(name, SArrB), v.T[0])), boolType
 	case "bytelen":
 		// bytelen(x): length of the big-endian byte representation of the non-negative integer x ((*big.Int).Bytes)
 		v, _ := arg(0)
